@@ -3,9 +3,9 @@ import itertools, re
 from vp import core, mmd, pmap
 
 F = [b"text[^a] ", b"more[^b] ", b"again[^a] ", b"inl[^inline *note*] ", b"cite[#c1] ", b"loc[p. 3][#c1] ", b"[Not cited][#c2] ", b"cite2[#c2] ", b"gl[?term] ", b"gl2[?term] ",
-     b"ab[>HTML] ", b"see [Head One][] ", b"see [Second][] ", b"see [lbl][] ", b"see [Third] ", b"tab [Cap One][] ", b"tab2 [Cap Two][] ", b"tab3 [tlab][] ", b"punct [What's this? -- \xc3\xa9t\xc3\xa9!][] ", b"plain "]
+     b"ab[>HTML] ", b"see [Head One][] ", b"see [Second][] ", b"see [lbl][] ", b"see [Third] ", b"tab [Cap One][] ", b"tab2 [Cap Two][] ", b"tab3 [tlab][] ", b"tab4 [Cap Three][] [tl3][] ", b"punct [What's this? -- \xc3\xa9t\xc3\xa9!][] ", b"plain "]
 DEFS = (b"\n\n[^a]: note a\n\n[^b]: note b with[^a] nested\n\n[^unused]: never\n\n[#c1]: Cite one\n\n[#c2]: Cite two\n\n[?term]: a definition\n\n[>HTML]: Hyper Text\n\n"
-        b"# Head One #\n\nSecond\n------\n\n### Third [lbl] ###\n\n# Head One #\n\n## What's this? -- \xc3\xa9t\xc3\xa9! ##\n\nTrailing-\n=========\n\n| a | b |\n|---|---|\n| c | d |\n[Cap One]\n")
+        b"# Head One #\n\nSecond\n------\n\n### Third [lbl] ###\n\n# Head One #\n\n## What's this? -- \xc3\xa9t\xc3\xa9! ##\n\nTrailing-\n=========\n\n| a | b |\n|---|---|\n| c | d |\n[Cap One]\n\n| e |\n|---|\n| f |\n[Cap Two] [tlab]\n\n[Cap Three][tl3]\n| g |\n|---|\n| h |\n")
 WRAP = [("para", b"%s"), ("list", b"* %s\n* x"), ("quote", b"> %s"), ("toc", b"{{TOC}}\n\n%s"), ("nested", b"* a\n\n    * %s\n")]
 E = mmd.EXT
 OPTS = [("default", mmd.EXT_DEFAULT, b""), ("random-foot", mmd.EXT_DEFAULT | E["RANDOM_FOOT"], b""), ("random-labels", mmd.EXT_DEFAULT | E["RANDOM_LABELS"], b""),
